@@ -13,7 +13,7 @@
 From Coq Require Import ZArith List Bool.
 Import ListNotations.
 From Urwid Require Import PyBase PyList Utf8 wcwidth_table_gen str_util_gen str_loops_gen Width
-     WidthFacts WidthProofs Utf8Proofs Utf8Total TrimTotal OffsetTotal GenEq WideProofs WideExact RleProofs WidthTableProofs WidthTop.
+     WidthFacts WidthProofs Utf8Proofs Utf8Total Utf8Shape TrimTotal OffsetTotal GenEq WidthTableLookup WideProofs WideExact RleProofs WidthTableProofs WidthTop WidthInterface.
 Open Scope Z_scope.
 
 (* ================= clause 1: widths are additive over character boundaries ================= *)
@@ -87,6 +87,15 @@ Theorem utf8_width_queries_never_raise :
   (b < zlen text -> exists x, is_wide_char wcw MUtf8 text b = Ok x).
 Proof. exact utf8_width_queries_total. Qed.
 Print Assumptions utf8_width_queries_never_raise.
+
+(* ANY bytes: what decode_one consumes is a lead byte (>= 0xC0) followed by continuation bytes only - an
+   ASCII byte or the lead byte of the following character is never swallowed into a malformed sequence *)
+Theorem decode_one_consumes_only_continuation_bytes :
+  forall text i o n, bytes text -> 0 <= i < zlen text -> decode_one text i = Ok (o, n) ->
+  (forall t, i < t < n -> exists v, nthz text t = Some v /\ is_cont v = true) /\
+  (i + 1 < n -> exists v, nthz text i = Some v /\ 192 <= v).
+Proof. exact decode_one_shape. Qed.
+Print Assumptions decode_one_consumes_only_continuation_bytes.
 
 (* ================= clause 3: next character and back ================= *)
 Theorem move_next_prev_inverse_str :
@@ -219,6 +228,64 @@ Theorem is_wide_char_double_byte :
   = Ok (match c with DSingle _ => false | DDouble _ _ => true end).
 Proof. exact is_wide_char_wide. Qed.
 Print Assumptions is_wide_char_double_byte.
+
+(* ---- the same facts by CHARACTER INDEX (Proofs/WidthInterface.v, the interface sibling properties import):
+   [dboff cs k] is the byte offset of character k of the well-formed double-byte text [dbflat cs];
+   [dbwf cs] has the boolean form [dbwfb cs = true] ---- *)
+Theorem wide_within_double_byte_by_index :
+  forall cs a k c, dbwf cs -> 0 <= a <= k -> k < zlen cs -> nthz cs k = Some c ->
+  match c with
+  | DSingle _ => within_double_byte (dbflat cs) (dboff cs a) (dboff cs k) = Ok 0
+  | DDouble _ _ => within_double_byte (dbflat cs) (dboff cs a) (dboff cs k) = Ok 1 /\
+                   within_double_byte (dbflat cs) (dboff cs a) (dboff cs k + 1) = Ok 2
+  end.
+Proof. exact wi_wide_within_double_byte. Qed.
+Print Assumptions wide_within_double_byte_by_index.
+
+Theorem wide_move_next_and_prev_land_on_boundaries :
+  forall cs, dbwf cs ->
+  (forall k c e, 0 <= k < zlen cs -> nthz cs k = Some c -> dboff cs k < e ->
+     move_next_char MWide (dbflat cs) (dboff cs k) e = Ok (dboff cs (k + 1))) /\
+  (forall a k, 0 <= a < k -> k <= zlen cs ->
+     move_prev_char MWide (dbflat cs) (dboff cs a) (dboff cs k) = Ok (dboff cs (k - 1))).
+Proof. exact wi_wide_move_next_prev_boundaries. Qed.
+Print Assumptions wide_move_next_and_prev_land_on_boundaries.
+
+Theorem wide_calc_text_pos_by_index :
+  forall wcw cs a b col, dbwf cs -> 0 <= a <= b -> b <= zlen cs -> 0 <= col ->
+  exists p c, calc_text_pos wcw MWide (dbflat cs) (dboff cs a) (dboff cs b) col = Ok (dboff cs p, c) /\
+    a <= p <= b /\ c = dboff cs p - dboff cs a /\ c <= col /\
+    (p = b \/ exists ch, nthz cs p = Some ch /\ col < c + zlen (dbbytes ch)).
+Proof. exact wi_wide_calc_text_pos. Qed.
+Print Assumptions wide_calc_text_pos_by_index.
+
+Theorem wide_calc_width_additive :
+  forall wcw cs a b c, 0 <= a <= b -> b <= c -> c <= zlen cs ->
+  exists w1 w2, calc_width wcw MWide (dbflat cs) (dboff cs a) (dboff cs b) = Ok w1 /\
+                calc_width wcw MWide (dbflat cs) (dboff cs b) (dboff cs c) = Ok w2 /\
+                calc_width wcw MWide (dbflat cs) (dboff cs a) (dboff cs c) = Ok (w1 + w2).
+Proof. exact wi_wide_calc_width_app. Qed.
+Print Assumptions wide_calc_width_additive.
+
+Theorem utf8_calc_text_pos_by_index :
+  forall wcw s a b col, scalars s -> 0 <= a <= b -> b <= zlen s -> 0 <= col ->
+  exists p c, calc_text_pos wcw MUtf8 (encs s) (boff s a) (boff s b) col = Ok (boff s p, c) /\
+    a <= p <= b /\ calc_width wcw MUtf8 (encs s) (boff s a) (boff s p) = Ok c /\ c <= col /\
+    (p = b \/ exists ch, nthz s p = Some ch /\ col < c + cw wcw ch).
+Proof. exact wi_utf8_calc_text_pos. Qed.
+Print Assumptions utf8_calc_text_pos_by_index.
+
+Theorem utf8_calc_width_additive :
+  forall wcw s a b c, scalars s -> 0 <= a <= b -> b <= c -> c <= zlen s ->
+  exists w1 w2, calc_width wcw MUtf8 (encs s) (boff s a) (boff s b) = Ok w1 /\
+                calc_width wcw MUtf8 (encs s) (boff s b) (boff s c) = Ok w2 /\
+                calc_width wcw MUtf8 (encs s) (boff s a) (boff s c) = Ok (w1 + w2).
+Proof. exact wi_utf8_calc_width_app. Qed.
+Print Assumptions utf8_calc_width_additive.
+
+Theorem double_byte_wellformedness_is_decidable : forall cs, dbwfb cs = true <-> dbwf cs.
+Proof. exact wi_wide_dbwfb. Qed.
+Print Assumptions double_byte_wellformedness_is_decidable.
 
 (* ================= clause 4: trimming a line to a column range ================= *)
 Theorem calc_trim_text_spec :
@@ -425,6 +492,23 @@ Print Assumptions generated_rle_functions_meet_their_specs.
 Theorem width_table_bounded : forall c, wcwidth_tab c <= 2.
 Proof. exact wcwidth_tab_le_2. Qed.
 Print Assumptions width_table_bounded.
+
+(* the dumped table is sorted, pairwise disjoint and covers every code point; the width the model uses
+   for a code point is the width of THE interval containing it, for ALL of 0 .. 0x10FFFF *)
+Theorem width_table_sorted_disjoint : Sorted.StronglySorted (fun e1 e2 => ihi e1 < ilo e2) wcwidth_table.
+Proof. exact table_sorted_disjoint. Qed.
+Print Assumptions width_table_sorted_disjoint.
+
+Theorem width_table_covers_every_code_point :
+  forall c, 0 <= c < 1114112 -> exists lo hi w, In (lo, hi, w) wcwidth_table /\ lo <= c <= hi.
+Proof. exact table_covers_every_code_point. Qed.
+Print Assumptions width_table_covers_every_code_point.
+
+Theorem get_width_is_the_table_lookup :
+  forall lo hi w c, In (lo, hi, w) wcwidth_table -> lo <= c <= hi ->
+  wcwidth_tab c = w /\ get_width wcwidth_tab c = Ok (if 0 <=? w then w else 0).
+Proof. exact table_lookup_both. Qed.
+Print Assumptions get_width_is_the_table_lookup.
 
 Theorem get_char_width_in_0_2 : forall wcw, (forall c, wcw c <= 2) -> forall c, 0 <= cw wcw c <= 2.
 Proof. exact cw_range. Qed.
